@@ -145,6 +145,7 @@ func (g *gen) ctxFor(op *Op, cancelP, deadlineP float64) {
 	case x < cancelP:
 		op.Ctx = "cancel"
 		op.CancelW = pick(g.r, 0.3, 0.1, 0.03, 0.01)
+		op.CancelAfter = g.chance(0.5)
 	case x < cancelP+deadlineP:
 		op.Ctx = "deadline"
 		op.DeadlineMs = pick(g.r, 0, 1, 10, 50, 1000)
